@@ -150,6 +150,20 @@ def check_partition(spec, stream, assign, k):
             if d:
                 out.append(core.v_diff(PROP, "partition", "partial changed by reduction", d, p.toJson(), args))
                 break
+        # a pure merge followed by in-place merges into its result: the partials must stay what they were
+        if k >= 2:
+            accu = defs.combine(parts[0], parts[1])
+            for i in list(range(2, k)) + [0]:
+                accu += parts[i]
+            d = C.diff(accu.toJson(), R.ref_doc(spec, list(stream) + [e for e, ci in zip(stream, assign) if ci == 0]))
+            if d:
+                out.append(core.v_diff(PROP, "partition", "(p0+p1) += ... differs from the reference", d, accu.toJson(), args))
+            for p, d0 in zip(parts, docs):
+                d = C.diff(p.toJson(), d0, tol_keys=())
+                if d:
+                    out.append(core.v_diff(PROP, "partition", "partial changed by merging into the result of +", d,
+                                           p.toJson(), args))
+                    break
         # the reduction as Spark's aggregate / fill.sparksql perform it: fold the partials into zero() with +=
         for order in itertools.permutations(range(k)):
             accu = proto.zero()
